@@ -1,2 +1,373 @@
-(** Property C18 — placeholder until Proofs/MetaProofs.v lands (replaced by the meta worker) *)
-From MP4 Require Import Reader.
+(** * Property C18 — the metadata accessors on iTunes-style user data
+
+    "For any movie whose user-data carries an iTunes-style item list, the title, year, poster and
+    summary accessors return exactly the encoded values — text decoded as UTF-8, the year from
+    either its decimal text or its 4-byte binary form, the poster bytes verbatim — and report
+    absence for items that are missing, for metadata with a different handler, and for movies
+    without metadata; unrelated items never change the answer."
+
+    Statements only; the proofs are in [Proofs/MetaProofs.v].  The bytes come from the reference
+    renderer [Iso/IsoMeta.v] ([iso_udta o t]), written from the ISO / QuickTime / iTunes layout
+    documents without reference to the library:
+
+      udta > [other boxes] meta ([version/flags word, ISO form only]
+                                 [other boxes] hdlr [other boxes] ilst [other boxes]   (or ilst .. hdlr)
+                                 ilst > items in the order [o_layout o]:
+                                          '©nam' title, '©day' year, 'covr' poster, 'desc' summary,
+                                          each holding one 'data' box (type, locale, value),
+                                          and any number of unrelated items (any other type code,
+                                          any payload) anywhere in between) [other boxes]
+
+    Item codes and value types the library maps (src/mp4box/mod.rs boxtype table, ilst.rs, types.rs):
+    0xA96E616D -> Title, 0xA9646179 -> Year, 'covr' -> Poster, 'desc' -> Summary; a 'data' box is
+    accepted only with type indicator 0 (Binary), 1 (Text), 13 (Image), 21 (TempoCpil).
+
+    The abstract value is [tags] (each of the four items present or not; the year as decimal
+    text [YText n] or as four big-endian bytes [YBin n]).  [expected o t] is what a reader must
+    answer: for handler type 'mdir' the tag for every key that occurs in the layout ([key_in]),
+    None for the others; for any other handler type four times None.  [answers i] are the four
+    accessors of [Mp4Reader::metadata()] ([md_title], [md_year], [md_poster], [md_summary]).
+
+    Results that contradict the property text are marked REFUTED below. *)
+From MP4 Require Import Kit BoxUdta Reader BoxFtyp BoxMvhd IsoMeta MetaProofs.
+Open Scope list_scope.
+Open Scope N_scope.
+
+(** the side conditions, spelled out: "within wire limits" *)
+Example opts_ok_means : forall o, opts_ok o =
+  ( (* unrelated items: any 32-bit code but the four known ones; any payload *)
+    Forall (fun s => match s with
+                     | SKey _ => True
+                     | SNoise c _ => c < U32 /\ ~ In c [cc_nam; cc_day; cc_covr; cc_desc]
+                     end) (o_layout o)
+    /\ o_locale o < U32
+    (* the cover art's type indicator is one the library knows (13 = JPEG; NOT 14 = PNG) *)
+    /\ In (o_poster_type o) [0; 1; 13; 21]
+    /\ o_handler o < U32
+    /\ o_hdlr_predef o < U32
+    /\ lenN (o_hdlr_reserved o) = 12
+    (* other boxes in meta: any 32-bit code but hdlr and ilst *)
+    /\ Forall (fun c => fst c < U32 /\ ~ In (fst c) [cc_hdlr; cc_ilst]) (o_meta_a o)
+    /\ Forall (fun c => fst c < U32 /\ ~ In (fst c) [cc_hdlr; cc_ilst]) (o_meta_b o)
+    /\ Forall (fun c => fst c < U32 /\ ~ In (fst c) [cc_hdlr; cc_ilst]) (o_meta_c o)
+    (* other boxes in udta: any 32-bit code but meta *)
+    /\ Forall (fun c => fst c < U32 /\ ~ In (fst c) [cc_meta]) (o_udta_pre o)
+    /\ Forall (fun c => fst c < U32 /\ ~ In (fst c) [cc_meta]) (o_udta_post o)
+    (* the QuickTime form (no version/flags word) is recognised only when hdlr is the first child *)
+    /\ (o_full_meta o = false -> o_hdlr_last o = false /\ o_meta_a o = []) ).
+Proof. reflexivity. Qed.
+
+Example tags_ok_means : forall t, tags_ok t =
+  ( (forall v, tg_title t = Some v -> utf8_valid v = true)
+    /\ (forall y, tg_year t = Some y -> year_value y < U32)
+    /\ (forall v, tg_summary t = Some v -> utf8_valid v = true) ).
+Proof. reflexivity. Qed.
+
+Example expected_means : forall o t, expected o t =
+  if o_handler o =? cc_mdir then
+    (if key_in TTitle (o_layout o) then tg_title t else None,
+     if key_in TYear (o_layout o) then option_map year_value (tg_year t) else None,
+     if key_in TPoster (o_layout o) then tg_poster t else None,
+     if key_in TSummary (o_layout o) then tg_summary t else None)
+  else (None, None, None, None).
+Proof. reflexivity. Qed.
+
+Example answers_means : forall i, answers i = (md_title i, md_year i, md_poster i, md_summary i).
+Proof. reflexivity. Qed.
+
+Example udta_ilst_is_metadata : forall r,
+  rd_metadata r = match moov_udta (rd_moov r) with Some u => udta_ilst u | None => None end.
+Proof. reflexivity. Qed.
+
+(** sufficient fuel: one unit per box on the path (the loops never look at a size field for it) *)
+Example udta_fuel_means : forall o t, udta_fuel o t =
+  (length (iso_udta_children o t) + (length (iso_meta_children o t) + (length (iso_ilst_children o t) + 1)))%nat.
+Proof. reflexivity. Qed.
+Example movie_fuel_means : forall o t mnoise tail, movie_fuel o t mnoise tail =
+  (length tail + 2 + (length mnoise + 1 + 1 + udta_fuel o t))%nat.
+Proof. reflexivity. Qed.
+
+(** ** The user-data box, decoded the way a container decodes a child (header, then body), at
+    any position of any stream, in both build modes, with any sufficient fuel *)
+Theorem metadata_sound : forall (m : mode) (fuel : nat) (o : opts) (t : tags) (pre post : bytes),
+  opts_ok o -> tags_ok t ->
+  lenN (iso_udta o t) < U32 ->
+  lenN pre + lenN (iso_udta o t) < 2 ^ 63 ->
+  (udta_fuel o t <= fuel)%nat ->
+  let data := pre ++ iso_udta o t ++ post in
+  exists u,
+    run (h <- read_header ;; u <- dec_udta_fuel fuel m (snd h) ;; Ret (fst h, u))
+        (stream_at data (lenN pre))
+    = (Ok (UdtaBox, u), stream_at data (lenN pre + lenN (iso_udta o t)))
+    /\ answers (udta_ilst u) = expected o t.
+Proof. exact metadata_sound_lemma. Qed.
+Print Assumptions metadata_sound.
+
+(** user data without a meta box (any other boxes): every accessor reports absence *)
+Theorem metadata_absent : forall (m : mode) (fuel : nat) (others : list (N * bytes)) (pre post : bytes),
+  Forall (fun c => fst c < U32 /\ ~ In (fst c) [cc_meta]) others ->
+  lenN (iso_udta_plain others) < U32 ->
+  lenN pre + lenN (iso_udta_plain others) < 2 ^ 63 ->
+  (length others <= fuel)%nat ->
+  let data := pre ++ iso_udta_plain others ++ post in
+  exists u,
+    run (h <- read_header ;; u <- dec_udta_fuel fuel m (snd h) ;; Ret (fst h, u))
+        (stream_at data (lenN pre))
+    = (Ok (UdtaBox, u), stream_at data (lenN pre + lenN (iso_udta_plain others)))
+    /\ answers (udta_ilst u) = (None, None, None, None).
+Proof. exact metadata_absent_lemma. Qed.
+Print Assumptions metadata_absent.
+
+(** ** A whole file through [Mp4Reader::read_header]:
+    ftyp, moov (mvhd, other boxes, the user data), other top-level boxes (mdat, free, ...).
+    ftyp and mvhd are the model's encodings (their round trips are [RtFtyp], [RtMvhd]). *)
+Example movie_with_udta_means : forall f mv mnoise u tail,
+  movie_with_udta f mv mnoise u tail =
+  wout (enc_ftyp f) ++ iso_box 0x6d6f6f76 (wout (enc_mvhd mv) ++ iso_boxes mnoise ++ u) ++ iso_boxes tail.
+Proof. reflexivity. Qed.
+
+Example movie_ok_means : forall f mv mnoise tail, movie_ok f mv mnoise tail =
+  ( ftyp_wf f = true /\ ftyp_size f < U32 /\ mvhd_wf mv = true /\ mvhd_size mv < U32
+    (* other boxes in moov: not mvhd, meta, mvex, trak, udta *)
+    /\ Forall (fun c => fst c < U32 /\ ~ In (fst c) [0x6d766864; cc_meta; 0x6d766578; 0x7472616b; cc_udta]) mnoise
+    (* other top-level boxes: not ftyp, moov, moof, emsg *)
+    /\ Forall (fun c => fst c < U32 /\ ~ In (fst c) [0x66747970; 0x6d6f6f76; 0x6d6f6f66; 0x656d7367]) tail ).
+Proof. reflexivity. Qed.
+
+Theorem metadata_file_sound : forall (m : mode) (fuel : nat) (o : opts) (t : tags)
+    (f : ftyp) (mv : mvhd) (mnoise tail : list (N * bytes)),
+  opts_ok o -> tags_ok t -> movie_ok f mv mnoise tail ->
+  let file := movie_with_udta f mv mnoise (iso_udta o t) tail in
+  lenN file < U32 ->
+  (movie_fuel o t mnoise tail <= fuel)%nat ->
+  exists r,
+    run (open_fuel fuel m (lenN file)) (stream_at file 0) = (Ok r, stream_at file (lenN file))
+    /\ rd_ftyp r = f /\ moov_mvhd (rd_moov r) = mv
+    /\ answers (rd_metadata r) = expected o t.
+Proof. exact metadata_file_sound_lemma. Qed.
+Print Assumptions metadata_file_sound.
+
+(** a movie whose user data has no meta box *)
+Theorem metadata_file_absent : forall (m : mode) (fuel : nat) (others : list (N * bytes))
+    (f : ftyp) (mv : mvhd) (mnoise tail : list (N * bytes)),
+  Forall (fun c => fst c < U32 /\ ~ In (fst c) [cc_meta]) others -> movie_ok f mv mnoise tail ->
+  let file := movie_with_udta f mv mnoise (iso_udta_plain others) tail in
+  lenN file < U32 ->
+  (file_fuel mnoise [(cc_udta, [])] tail (length others) <= fuel)%nat ->
+  exists r,
+    run (open_fuel fuel m (lenN file)) (stream_at file 0) = (Ok r, stream_at file (lenN file))
+    /\ answers (rd_metadata r) = (None, None, None, None).
+Proof. exact metadata_file_absent_lemma. Qed.
+Print Assumptions metadata_file_absent.
+
+(** a movie without user data *)
+Theorem metadata_file_no_udta : forall (m : mode) (fuel : nat)
+    (f : ftyp) (mv : mvhd) (mnoise tail : list (N * bytes)),
+  movie_ok f mv mnoise tail ->
+  let file := movie_with_udta f mv mnoise [] tail in
+  lenN file < U32 ->
+  (file_fuel mnoise [] tail 0 <= fuel)%nat ->
+  exists r,
+    run (open_fuel fuel m (lenN file)) (stream_at file 0) = (Ok r, stream_at file (lenN file))
+    /\ answers (rd_metadata r) = (None, None, None, None).
+Proof. exact metadata_file_no_udta_lemma. Qed.
+Print Assumptions metadata_file_no_udta.
+
+(** ** What the code does at the edges of the expected semantics *)
+
+(** the year as text is whatever [str::parse::<u32>] accepts after lossy decoding: an optional
+    '+', at least one digit, digits only, below 2^32 (see [year_forms_example]) *)
+Theorem year_text_forms : forall s,
+  item_to_u32 (mkIlstItem (mkData s "Text")) = parse_u32 (utf8_lossy s).
+Proof. exact MetaProofs.year_text_forms. Qed.
+
+(** the year as binary: only with exactly four bytes *)
+Theorem year_binary_forms : forall v,
+  item_to_u32 (mkIlstItem (mkData v "Binary")) = if lenN v =? 4 then Some (unbe v) else None.
+Proof. exact MetaProofs.year_binary_forms. Qed.
+
+(** a year under value type 13 or 21 (21 is QuickTime's "big-endian signed integer") is not reported *)
+Theorem year_other_types : forall v,
+  item_to_u32 (mkIlstItem (mkData v "Image")) = None
+  /\ item_to_u32 (mkIlstItem (mkData v "TempoCpil")) = None.
+Proof. exact MetaProofs.year_other_types. Qed.
+
+(** title and summary ignore the value type; ill-formed UTF-8 is replaced, never rejected *)
+Theorem text_any_type : forall v nm, item_to_str (mkIlstItem (mkData v nm)) = utf8_lossy v.
+Proof. exact MetaProofs.text_any_type. Qed.
+
+(** an item that occurs twice: the later one wins *)
+Theorem duplicate_item_last_wins : forall k a b l,
+  ilst_get k (ilst_insert k b (ilst_insert k a l)) = Some b.
+Proof. exact MetaProofs.duplicate_item_last_wins. Qed.
+
+(** a 'data' box with any other type indicator is an error *)
+Theorem data_type_accepted : forall ty, ty <> 0 -> ty <> 1 -> ty <> 13 -> ty <> 21 ->
+  datatype_try_from ty = Err EData.
+Proof. exact MetaProofs.data_type_accepted. Qed.
+
+(** ** Examples (non-vacuity and witnesses), all by computation *)
+Definition ex18_zeros12 : bytes := be 4 0 ++ be 4 0 ++ be 4 0.
+Definition ex18_hdlr (h : N) : N * bytes := (cc_hdlr, iso_hdlr_payload 0 h ex18_zeros12 [0]).
+(** ISO form: udta > meta > hdlr 'mdir', ilst > items *)
+Definition ex18_udta (items : list (N * bytes)) : bytes :=
+  iso_box cc_udta (iso_box cc_meta (be 4 0 ++ iso_boxes [ex18_hdlr cc_mdir; (cc_ilst, iso_boxes items)])).
+Definition ex18_answers (udta : bytes) : res (option bytes * option N * option bytes * option bytes) :=
+  res_map (fun u => answers (udta_ilst u))
+          (fst (run (h <- read_header ;; dec_udta_fuel 50 Dbg (snd h)) (stream_at udta 0))).
+Definition ex18_file (udta : bytes) : bytes :=
+  movie_with_udta (mkFtyp 0x69736f6d 512 [0x69736f6d]) mvhd_default [] udta [(0x6d646174, [1; 2; 3])].
+Definition ex18_open (udta : bytes) : res (option bytes * option N * option bytes * option bytes) :=
+  res_map (fun r => answers (rd_metadata r))
+          (fst (run (open_fuel 100 Dbg (lenN (ex18_file udta))) (stream_at (ex18_file udta) 0))).
+Definition ex18_text (s : string) : bytes := bytes_of_string s.
+
+(** options that exercise everything: QuickTime-style hdlr fields, unrelated items, items out of
+    order, other boxes in meta and udta, hdlr after ilst *)
+Definition ex18_opts (full last : bool) (handler : N) : opts :=
+  mkOpts full last handler 0x6d686c72 (be 4 0x6170706c ++ be 4 0 ++ be 4 0) [4; 110; 97; 109; 101] 0x00000409 wk_jpeg
+         [SNoise 0xa9746f6f [1; 2; 3]; SKey TSummary; SKey TYear; SNoise 0x2d2d2d2d []; SKey TPoster; SKey TTitle]
+         (if full then [(0x66726565, [9])] else []) [(0x66726565, [])] [(0x75756964, [1; 2])]
+         [(0x6e616d65, [65])] [(0x66726565, [])].
+Definition ex18_tags : tags :=
+  mkTags (Some (ex18_text "Big Buck Bunny")) (Some (YText 2008)) (Some [255; 216; 255; 224; 0]) (Some [195; 169]).
+
+Example metadata_example :
+  let o := ex18_opts true true cc_mdir in
+  lenN (iso_udta o ex18_tags) = 249
+  /\ ex18_answers (iso_udta o ex18_tags) = Ok (expected o ex18_tags)
+  /\ expected o ex18_tags
+     = (Some (ex18_text "Big Buck Bunny"), Some 2008, Some [255; 216; 255; 224; 0], Some [195; 169])
+  /\ ex18_open (iso_udta o ex18_tags) = Ok (expected o ex18_tags)
+  (* QuickTime form, binary year, missing title and summary *)
+  /\ (let o := ex18_opts false false cc_mdir in
+      let t := mkTags None (Some (YBin 1999)) (Some []) None in
+      ex18_answers (iso_udta o t) = Ok (None, Some 1999, Some [], None)
+      /\ expected o t = (None, Some 1999, Some [], None))
+  (* another handler type: nothing is reported *)
+  /\ ex18_answers (iso_udta (ex18_opts true false 0x6d647461) ex18_tags) = Ok (None, None, None, None)
+  (* no meta box; no udta box *)
+  /\ ex18_answers (iso_udta_plain [(0x6e616d65, [65])]) = Ok (None, None, None, None)
+  /\ ex18_open [] = Ok (None, None, None, None).
+Proof. vm_compute. repeat split; reflexivity. Qed.
+
+(** the hypotheses of [metadata_sound] hold for these options *)
+Example metadata_example_ok :
+  opts_ok (ex18_opts true true cc_mdir) /\ opts_ok (ex18_opts false false cc_mdir) /\ tags_ok ex18_tags.
+Proof.
+  assert (NI : forall c l, forallb (fun x => negb (x =? c)) l = true -> ~ In c l).
+  { intros c l H Hc. rewrite forallb_forall in H. specialize (H c Hc).
+    rewrite N.eqb_refl in H. discriminate. }
+  assert (K : forall full last,
+             (full = false -> last = false) ->
+             opts_ok (ex18_opts full last cc_mdir)).
+  { intros full last Hq. unfold opts_ok, noise_ok.
+    repeat match goal with |- _ /\ _ => split end.
+    - repeat first [ apply Forall_nil
+                   | apply Forall_cons; [first [exact I | split; [vm_compute; reflexivity | apply NI; vm_compute; reflexivity]]|] ].
+    - vm_compute. reflexivity.
+    - right. right. left. reflexivity.
+    - vm_compute. reflexivity.
+    - vm_compute. reflexivity.
+    - vm_compute. reflexivity.
+    - destruct full; repeat first [ apply Forall_nil
+        | apply Forall_cons; [split; [vm_compute; reflexivity | apply NI; vm_compute; reflexivity]|] ].
+    - repeat first [ apply Forall_nil
+        | apply Forall_cons; [split; [vm_compute; reflexivity | apply NI; vm_compute; reflexivity]|] ].
+    - repeat first [ apply Forall_nil
+        | apply Forall_cons; [split; [vm_compute; reflexivity | apply NI; vm_compute; reflexivity]|] ].
+    - repeat first [ apply Forall_nil
+        | apply Forall_cons; [split; [vm_compute; reflexivity | apply NI; vm_compute; reflexivity]|] ].
+    - repeat first [ apply Forall_nil
+        | apply Forall_cons; [split; [vm_compute; reflexivity | apply NI; vm_compute; reflexivity]|] ].
+    - cbn [ex18_opts o_full_meta o_hdlr_last o_meta_a]. intros ->. split; [now apply Hq | reflexivity]. }
+  split; [apply K; discriminate|]. split; [apply K; reflexivity|].
+  unfold tags_ok, ex18_tags. cbn [tg_title tg_year tg_summary].
+  repeat split; intros x E; inversion E; subst; vm_compute; reflexivity.
+Qed.
+
+(** *** REFUTED for PNG cover art: type indicator 14 (the usual one next to 13 = JPEG) is not a
+    [DataType]; [DataBox::read_box] fails, the error propagates, and the WHOLE FILE cannot be
+    opened — no accessor answers anything.  With 13 the same bytes are returned verbatim. *)
+Definition ex18_png : bytes :=
+  ex18_udta [(cc_nam, iso_item_payload wk_utf8 0 [65]); (cc_covr, iso_item_payload wk_png 0 [137; 80; 78; 71])].
+Theorem poster_png_refuted :
+  ex18_answers ex18_png = Err EData
+  /\ ex18_open ex18_png = Err EData
+  /\ ex18_open (ex18_udta [(cc_nam, iso_item_payload wk_utf8 0 [65]);
+                           (cc_covr, iso_item_payload wk_jpeg 0 [137; 80; 78; 71])])
+     = Ok (Some [65], None, Some [137; 80; 78; 71], None)
+  /\ ex18_png =
+     [0; 0; 0; 114; 117; 100; 116; 97;   0; 0; 0; 106; 109; 101; 116; 97;   0; 0; 0; 0;
+      0; 0; 0; 33; 104; 100; 108; 114;   0; 0; 0; 0;  0; 0; 0; 0;  109; 100; 105; 114;
+      0; 0; 0; 0;  0; 0; 0; 0;  0; 0; 0; 0;  0;
+      0; 0; 0; 61; 105; 108; 115; 116;
+      0; 0; 0; 25; 169; 110; 97; 109;   0; 0; 0; 17; 100; 97; 116; 97;   0; 0; 0; 1;  0; 0; 0; 0;  65;
+      0; 0; 0; 28; 99; 111; 118; 114;   0; 0; 0; 20; 100; 97; 116; 97;   0; 0; 0; 14;  0; 0; 0; 0;
+      137; 80; 78; 71].
+Proof. vm_compute. repeat split; reflexivity. Qed.
+
+(** the same for any known item whose value type is not 0, 1, 13 or 21, e.g. a UTF-16 title (2),
+    a year as an unsigned integer (22), a BMP cover (27) *)
+Example unknown_value_type_fails_the_file :
+  ex18_open (ex18_udta [(cc_nam, iso_item_payload 2 0 [0; 65])]) = Err EData
+  /\ ex18_open (ex18_udta [(cc_day, iso_item_payload 22 0 [0; 0; 7; 232])]) = Err EData
+  /\ ex18_open (ex18_udta [(cc_covr, iso_item_payload wk_bmp 0 [66; 77])]) = Err EData
+  (* while an UNRELATED item may hold anything *)
+  /\ ex18_open (ex18_udta [(0xa9746f6f, iso_item_payload 2 0 [0; 65]); (cc_nam, iso_item_payload 1 0 [65])])
+     = Ok (Some [65], None, None, None).
+Proof. vm_compute. repeat split; reflexivity. Qed.
+
+(** *** REFUTED for the QuickTime form (no version/flags word) when hdlr is not the first child:
+    the first word is taken for version/flags, "unsupported version", the whole file fails.
+    With hdlr first the same boxes are read. *)
+Definition ex18_qt_ilst_first : bytes :=
+  iso_box cc_udta (iso_box cc_meta (iso_boxes [(cc_ilst, iso_boxes [(cc_nam, iso_item_payload wk_utf8 0 [65])]);
+                                                ex18_hdlr cc_mdir])).
+Theorem quicktime_meta_hdlr_not_first_refuted :
+  ex18_answers ex18_qt_ilst_first = Err EData
+  /\ ex18_open ex18_qt_ilst_first = Err EData
+  /\ ex18_open (iso_box cc_udta (iso_box cc_meta (iso_boxes [ex18_hdlr cc_mdir;
+                  (cc_ilst, iso_boxes [(cc_nam, iso_item_payload wk_utf8 0 [65])])])))
+     = Ok (Some [65], None, None, None)
+  /\ ex18_qt_ilst_first =
+     [0; 0; 0; 82; 117; 100; 116; 97;   0; 0; 0; 74; 109; 101; 116; 97;
+      0; 0; 0; 33; 105; 108; 115; 116;
+      0; 0; 0; 25; 169; 110; 97; 109;   0; 0; 0; 17; 100; 97; 116; 97;   0; 0; 0; 1;  0; 0; 0; 0;  65;
+      0; 0; 0; 33; 104; 100; 108; 114;   0; 0; 0; 0;  0; 0; 0; 0;  109; 100; 105; 114;
+      0; 0; 0; 0;  0; 0; 0; 0;  0; 0; 0; 0;  0].
+Proof. vm_compute. repeat split; reflexivity. Qed.
+
+(** the forms of a year *)
+Definition ex18_year (ty : N) (v : bytes) := ex18_answers (ex18_udta [(cc_day, iso_item_payload ty 0 v)]).
+Example year_forms_example :
+  map (fun s => ex18_year 1 (ex18_text s))
+      ["2024"; "+2024"; "02024"; "4294967295";
+       " 2024"; "2024 "; ""; "+"; "-0"; "2024-05-17"; "2024-05-17T07:00:00Z"; "4294967296"]%string
+  = [Ok (None, Some 2024, None, None); Ok (None, Some 2024, None, None); Ok (None, Some 2024, None, None);
+     Ok (None, Some 4294967295, None, None);
+     Ok (None, None, None, None); Ok (None, None, None, None); Ok (None, None, None, None);
+     Ok (None, None, None, None); Ok (None, None, None, None); Ok (None, None, None, None);
+     Ok (None, None, None, None); Ok (None, None, None, None)]
+  /\ ex18_year 0 [0; 0; 7; 232] = Ok (None, Some 2024, None, None)
+  /\ ex18_year 0 [7; 232] = Ok (None, None, None, None)            (* binary, not 4 bytes *)
+  /\ ex18_year 0 [0; 0; 0; 7; 232] = Ok (None, None, None, None)
+  /\ ex18_year 21 [0; 0; 7; 232] = Ok (None, None, None, None)     (* BE integer type: not reported *)
+  /\ ex18_year 13 [0; 0; 7; 232] = Ok (None, None, None, None).
+Proof. vm_compute. repeat split; reflexivity. Qed.
+
+(** other edges: a repeated item (the last wins); two 'data' boxes in one item (the last wins);
+    an item without a 'data' box, and a meta box without hdlr (errors: the file cannot be opened);
+    ill-formed UTF-8 (replaced by U+FFFD); an empty title (reported as the empty string) *)
+Example edges_example :
+  ex18_answers (ex18_udta [(cc_nam, iso_item_payload 1 0 [65]); (cc_nam, iso_item_payload 1 0 [66])])
+  = Ok (Some [66], None, None, None)
+  /\ ex18_answers (ex18_udta [(cc_covr, iso_box cc_data (iso_data_payload 13 0 [1])
+                                        ++ iso_box cc_data (iso_data_payload 13 0 [2]))])
+     = Ok (None, None, Some [2], None)
+  /\ ex18_open (ex18_udta [(cc_nam, iso_box 0x6e616d65 [1; 2])]) = Err EData
+  /\ ex18_open (iso_box cc_udta (iso_box cc_meta (be 4 0 ++ iso_boxes [(cc_ilst, iso_boxes [])]))) = Err EData
+  /\ ex18_answers (ex18_udta [(cc_nam, iso_item_payload 1 0 [65; 255; 66])])
+     = Ok (Some [65; 239; 191; 189; 66], None, None, None)
+  /\ ex18_answers (ex18_udta [(cc_nam, iso_item_payload 1 0 [])]) = Ok (Some [], None, None, None).
+Proof. vm_compute. repeat split; reflexivity. Qed.
